@@ -1,4 +1,26 @@
-(* placeholder until Batch/Proofs*.v land: nothing is claimed proved yet *)
-From V Require Import C03.Glue.
-Theorem c03_placeholder : True. Proof. exact I. Qed.
-Print Assumptions c03_placeholder.
+(* C03 - Exporters are driven one call at a time and within the configured batch bounds (batch processors).
+   Property theorems only; proofs are in Batch/Proofs*.v and Batch/Theorems.v. *)
+From V Require Import Batch.Model Batch.ProofsA Batch.ProofsB Batch.Theorems.
+From Coq Require Import List Arith.
+Import ListNotations.
+
+Theorem c03_batch_size_bounds : forall q b s, reachable q b s ->
+  Forall (fun x => 1 <= length x <= Bsz s) (exported s) /\
+  (forall x, inflight s = Some x -> 1 <= length x <= Bsz s).
+Proof. exact batch_size_bounds. Qed.
+Print Assumptions c03_batch_size_bounds.
+
+Theorem c03_export_never_overlaps : forall q b s t e s', reachable q b s -> accept s (t, e) = Some s' ->
+  match e with
+  | EExpBegin _ | EExpFlush _ => t = 0 /\ inflight s = None
+  | EExpEnd _ => t = 0 /\ inflight s <> None /\ inflight s' = None
+  | EExpShutdown _ => inflight s = None /\ wp s = WDone
+  | _ => True
+  end.
+Proof. exact export_never_overlaps. Qed.
+Print Assumptions c03_export_never_overlaps.
+
+Theorem c03_nonvacuous : exists s, run (init 1 1) demo_trace = Some s /\ In (2, 1, true) (fl_done s) /\ sh_done s <> [] /\
+  dropped s = [12] /\ exported s = [[11]].
+Proof. exact demo_reachable. Qed.
+Print Assumptions c03_nonvacuous.
